@@ -18,6 +18,9 @@ pub enum Act {
     Malformed(u16),
     Drop(u16),
     Abort(u8),
+    /// the holder of a directly held command gives it one more task (`Command::spawn`), at any time -
+    /// also after it has finished
+    SpawnMore,
 }
 
 #[derive(Clone, Copy, Debug, PartialEq, Eq, PartialOrd, Ord, serde::Serialize, serde::Deserialize)]
@@ -34,6 +37,7 @@ pub fn step_json(s: &Step) -> Value {
         Act::Malformed(h) => format!("undecodable-response(h{h})"),
         Act::Drop(h) => format!("drop(h{h})"),
         Act::Abort(k) => format!("abort(a{k})"),
+        Act::SpawnMore => "command.spawn(request -> event)".to_string(),
     };
     json!(if s.observe { a } else { format!("{a}; no observation") })
 }
@@ -47,6 +51,8 @@ pub struct Bounds {
     /// resolutions the reference expects to be rejected or to be late no-ops
     pub max_late: u8,
     pub abort_before_start: bool,
+    /// `Command::spawn` calls by the holder of the command (command-level hosts)
+    pub max_spawn_more: u8,
 }
 
 #[derive(Clone, Debug)]
@@ -85,6 +91,7 @@ pub struct Checker {
     pub last_val: BTreeMap<u16, u32>,
     pub val_handle: BTreeMap<u32, u16>,
     pub max_alts: usize,
+    pub spawned_more: u8,
 }
 
 fn multiset<T: Ord + Clone>(v: &[T]) -> Vec<T> {
@@ -107,6 +114,7 @@ impl Checker {
             started: false,
             dirty: true,
             silent_used: 0,
+            spawned_more: 0,
             late_used: 0,
             last_mark: BTreeMap::new(),
             last_val: BTreeMap::new(),
@@ -191,6 +199,21 @@ impl Checker {
             })
             .collect();
         self.handles[h as usize].dropped = true;
+        self.dirty = true;
+    }
+
+    pub fn apply_spawn_more(&mut self) {
+        let site = crate::hosts::spawn_more_site(self.spawned_more);
+        self.alts = self
+            .alts
+            .iter()
+            .map(|s| {
+                let mut s = s.clone();
+                s.spawn_more(site);
+                s
+            })
+            .collect();
+        self.spawned_more += 1;
         self.dirty = true;
     }
 
@@ -475,6 +498,12 @@ impl Checker {
                 }
             }
         }
+        if direct && self.spawned_more < b.max_spawn_more {
+            out.push(Step { act: Act::SpawnMore, observe: true });
+            if self.silent_used < b.max_silent {
+                out.push(Step { act: Act::SpawnMore, observe: false });
+            }
+        }
         if aborts_total < b.max_aborts {
             for k in 0..p.abort_handles() as u8 {
                 if self.aborts_fired.get(&k).copied().unwrap_or(0) < 2 {
@@ -603,6 +632,7 @@ pub fn step_on(h: &mut Host, s: Step, i: usize, hint: bool) -> (Option<Res>, Opt
         Act::Abort(k) => {
             h.abort(k);
         }
+        Act::SpawnMore => h.spawn_more(),
     }
     let after = if s.observe && !h.dead { Some(h.observe()) } else { None };
     (res, call_obs, after)
@@ -896,6 +926,7 @@ impl<'a> Explorer<'a> {
                 chk.apply_drop(h);
             }
             Act::Abort(k) => chk.apply_abort(k),
+            Act::SpawnMore => chk.apply_spawn_more(),
         }
         if !st.observe {
             chk.silent_used += 1;
